@@ -183,6 +183,19 @@ func checkIndex(in ssa.Instruction, x, idx ssa.Value, isSliceBound bool) (bool, 
 	if indexBoundedByLen(b, idx, x) {
 		return true, "index < len(" + xp + ") (loop bound)"
 	}
+	// i := strings.Index*(x, ...) is in [-1, len(x)-1]: x[:i], x[i:], x[i+1:] and x[i] are in range once
+	// i is known non-negative (i >= 0, i != -1, i > -1)
+	core, off := affineOf(idx)
+	if c, ok := core.(*ssa.Call); ok && (off == 0 || (off == 1 && isSliceBound)) {
+		switch funcID(calleeObj(&c.Call)) {
+		case "strings.Index", "strings.IndexByte", "strings.IndexRune", "strings.IndexAny", "strings.LastIndex", "strings.LastIndexByte", "bytes.IndexByte", "bytes.Index":
+			if len(c.Call.Args) > 0 && (c.Call.Args[0] == x || pathOf(c.Call.Args[0]) == xp) {
+				if s := setAt(in.Parent(), core, in); s.subsetOf(rng(0, posInf)) {
+					return true, "result of " + calleeShort(&c.Call) + " on the same string, known found"
+				}
+			}
+		}
+	}
 	return false, "index " + pathOf(idx) + " is not related to len(" + xp + ") by a dominating guard"
 }
 
